@@ -117,7 +117,8 @@ def who_may_write(ctx, rep, rule: str, only_kinds: set[str] | None = None, inclu
             rep.floor(rule, f"{short(wq)} writes {k}", per_writer.get(k, 0), 1)
     if include_params:
         for u in sorted(update_params):
-            rep.floor(rule, f"{short(u)} writes PARAM", per_writer.get("PARAM:" + u, 0), 1)
+            n_w = per_writer.get("PARAM:" + u, 0)
+            rep.ob(rule, f"writes-parameters-in-place:{short(u)}", n_w >= 1, repo.func(u).loc(), f"{short(u)} performs {n_w} in-place write(s) whose destination aliases parameter storage; it must update the parameters in place through their block views (an out-of-place result is discarded)", sample=n_w == 0)
     rep.notes.setdefault("points_to", {"frames": len(pts.frames), "heap_cells": len(pts.heap), "write_sites": len(pts.writes), "iterations": pts.iterations, "k": pts.k, "unknown_ops": sorted(pts.unknown_ops)})
     rep.assume("torch operation table (sv/tables.py): in-place / view / maybe-copy / fresh classification of Tensor methods and torch functions")
 
